@@ -13,7 +13,7 @@ RULE = ("exhaustive grid 512 flag values x {no payload, payload} x {IPv4, IPv6} 
         "0xffffffff, random} on random tuples/keys (random and boundary ports), each judged by the closed-form policy "
         "(allowed iff flags minus SYN is a subset of {PSH,URG,CWR,ECE} without both CWR and ECE; then flags=SYN|ACK exactly, "
         "ack=seq+1 mod 2^32, no payload; otherwise never SYN|ACK); the same grid is re-run after the tuple's flow has been "
-        "validated and fed data, and after floods. Cookie: metamorphic pairs - same (src,dst,sport,dport,key) under different "
+        "validated and fed data, and after floods; logger and verbosity drawn at random per round (a responder that panics inside a log statement answers no SYN). Cookie: metamorphic pairs - same (src,dst,sport,dport,key) under different "
         "seq/flags/payload/MAC/TTL/history/table-reset must give the same cookie; changing exactly one of src, dst, sport, "
         "dport, IP-version embedding, key half 0, key half 1 must change it (at most ceil(N/2^32)+1 coincidences tolerated). "
         "Non-trivial = SYN-bearing segments judged / perturbation pairs compared; distinct = distinct (flags, payload?, "
